@@ -2,6 +2,8 @@ package main
 
 import (
 	"bytes"
+	"crypto/sha256"
+	"encoding/hex"
 	"flag"
 	"fmt"
 	"math/rand"
@@ -36,6 +38,11 @@ func buildCols(cs []bcol) ([]colgen.Col, []proto.InputColumn) {
 	}
 	return cols, in
 }
+
+var (
+	encodeAllCalls int
+	bigStaged      = bytes.Repeat([]byte{0x5A}, 1<<20+4096)
+)
 
 type sliceWriter struct{ b []byte }
 
@@ -115,6 +122,26 @@ func encodeAll(cs []bcol, rows, rev int) (canon []byte, alts []map[string]any, e
 		return nil, nil, err
 	}
 	alts = append(alts, map[string]any{"mode": "WriteBlock+Flush+stale-capacity", "prefixKept": true, "equal": bytes.Equal(sw8.b, canon)})
+	// the vectored writer after it has flushed more than a MiB of staged bytes (every eighth block)
+	encodeAllCalls++
+	if encodeAllCalls%8 == 0 {
+		_, in11 := buildCols(cs)
+		sw11 := &sliceWriter{}
+		w11 := proto.NewWriter(sw11, new(proto.Buffer))
+		w11.ChainBuffer(func(b *proto.Buffer) { b.PutRaw(bigStaged) })
+		if _, err := w11.Flush(); err != nil {
+			return nil, nil, err
+		}
+		first := len(sw11.b) == len(bigStaged)
+		sw11.b = sw11.b[:0]
+		if err := blk.WriteBlock(w11, rev, in11); err != nil {
+			return nil, nil, err
+		}
+		if _, err := w11.Flush(); err != nil {
+			return nil, nil, err
+		}
+		alts = append(alts, map[string]any{"mode": "WriteBlock+Flush after a large flush", "prefixKept": first, "equal": bytes.Equal(sw11.b, canon)})
+	}
 	// the columns alone, written through a writer whose staging buffer held bytes before the writer existed: the bytes
 	// come out in the order they were put in, and each column as EncodeColumn gives it
 	if rows > 0 {
@@ -539,6 +566,55 @@ func codecMain(args []string) error {
 			e2, v2 := decodeCol(k, in, rows, true)
 			tw.Emit(map[string]any{"ev": "Decode", "tname": k.Name(), "ast": k.AST(), "rows": rows, "bytes": colgen.Ints(in),
 				"err": e1, "vals": v1, "reusedErr": e2, "reusedVals": v2})
+			n++
+		}
+	}
+	// columns beyond one MiB on the wire (reads of that size may be done in steps): encoded, decoded into a fresh column,
+	// encoded again; the line carries the digests of both encodings and of the rows read back one by one
+	if *mode == "dual" {
+		for ki, k := range kinds {
+			w, _ := k.AST()["w"].(int)
+			if k.AST()["k"] != "fixed" || w == 0 || ki%*nshard != *shard {
+				continue
+			}
+			rows := (1<<20)/w + 1 + rng.Intn(4000)
+			src := k.New()
+			seedv := uint64(ki)*0x9e3779b97f4a7c15 + 12345
+			val := make([]int, w)
+			for i := 0; i < rows; i++ {
+				for j := range val {
+					seedv = seedv*6364136223846793005 + 1442695040888963407
+					val[j] = int(seedv >> 56)
+				}
+				if k.Name() == "Bool" {
+					val[0] &= 1
+				}
+				src.Append(append([]int(nil), val...))
+			}
+			var b1, b2 proto.Buffer
+			src.Column().(proto.ColInput).EncodeColumn(&b1)
+			dst := k.New()
+			errS := ""
+			rowSum := sha256.New()
+			if err := safely(func() error { return dst.Column().DecodeColumn(proto.NewReader(bytes.NewReader(b1.Buf)), rows) }); err != nil {
+				errS = err.Error()
+			} else if err := safely(func() error {
+				dst.Column().(proto.ColInput).EncodeColumn(&b2)
+				for i := 0; i < dst.Column().Rows(); i += 1 + dst.Column().Rows()/5000 {
+					fmt.Fprint(rowSum, dst.Row(i))
+				}
+				return nil
+			}); err != nil {
+				errS = err.Error()
+			}
+			wantSum := sha256.New()
+			for i := 0; i < rows; i += 1 + rows/5000 {
+				fmt.Fprint(wantSum, src.Row(i))
+			}
+			s1, s2 := sha256.Sum256(b1.Buf), sha256.Sum256(b2.Buf)
+			tw.Emit(map[string]any{"ev": "BigColumn", "tname": k.Name(), "rows": rows, "rowsOut": dst.Column().Rows(), "bytes": len(b1.Buf), "err": errS,
+				"inSum": hex.EncodeToString(s1[:8]), "outSum": hex.EncodeToString(s2[:8]),
+				"rowsSumIn": hex.EncodeToString(wantSum.Sum(nil)[:8]), "rowsSumOut": hex.EncodeToString(rowSum.Sum(nil)[:8])})
 			n++
 		}
 	}
